@@ -6,8 +6,8 @@
  *        if (accum > (UINT64_MAX - digit) / base) return 0;     (subtraction cannot wrap, divisor != 0)
  *        accum = accum * base + digit;                          (neither * nor + wraps in 64 bits)
  * together with the signed arithmetic that computes the radix from the prefix. Pointer checks are OFF in these units
- * (the loop-carried cursor is arbitrary after the loop havoc, rule R14); memory safety is the separate bounded unit
- * num.scan_u64.memsafe.
+ * (the loop-carried cursor is arbitrary after the loop havoc, rule R14); memory safety is the separate bounded units
+ * num.scan.memsafe.*.
  *
  * The radix must be a constant for the solver (rule R5): one job per radix prefix, selected with -DNUM_KIND / -DNUM_K.
  * The jobs partition the input domain (every input takes exactly one of the prefix branches of the code):
